@@ -517,6 +517,35 @@ def op_counts(code):
     return r
 
 
+_code_opwrites = {}
+
+
+def op_after_writes(code):
+    """{line: [n, ...]}: the instruction positions (1-based, in static order) that FOLLOW a store to an
+    attribute / item / global or a call within that line - i.e. 'pre-empt before instruction n' lands right
+    after shared state was (or may have been) changed, in the middle of the line."""
+    r = _code_opwrites.get(code)
+    if r is None:
+        r = {}
+        try:
+            cur = None; idx = 0; prev_w = False
+            for ins in dis.get_instructions(code):
+                if ins.starts_line is not None:
+                    if ins.starts_line != cur:
+                        idx = 0; prev_w = False
+                    cur = ins.starts_line
+                if cur is None or ins.opname in ('RESUME', 'CACHE', 'NOP'):
+                    continue
+                idx += 1
+                if prev_w and idx >= 2:
+                    r.setdefault(cur, []).append(idx)
+                prev_w = ins.opname in _write_ops or ins.opname.startswith('CALL')
+        except Exception:
+            pass
+        _code_opwrites[code] = r
+    return r
+
+
 MON_TOOL = 3            # a free sys.monitoring tool id (PEP 669); settrace keeps its own
 
 
